@@ -193,6 +193,7 @@ func init() {
 			"non-trivial = the loop runs >= 2 iterations or the collection is mutated in the body; distinct by hash(program)+input")
 		table := rangeTable()
 		table = append(table, rangeShapePrograms()...)
+		table = append(table, iteratorValuePrograms()...)
 		spec := &diffSpec{
 			profiles: []*profile{rangeProfile()}, batchSize: 40, batches: rs.vol(12, 400),
 			fixed: table,
@@ -229,6 +230,7 @@ func init() {
 		for i, sh := range consumerShapes {
 			fixed = append(fixed, mkShapeProgram("S"+itoa(1000+i), sh))
 		}
+		fixed = append(fixed, iteratorValuePrograms()...)
 		spec := &diffSpec{
 			profiles: []*profile{consumerProfile()}, batchSize: 30, batches: rs.vol(20, 400),
 			fixed: fixed, fixedStyles: true,
